@@ -1222,8 +1222,9 @@ impl ObjectFile {
         let mut second = a_obj.block_map.iter();
         second.next();
         if std::iter::zip(first, second).any(|((&a_st, a_bl), (&b_st, b_bl))| {
-            let ar = a_st .. (a_st + a_bl.len() as u16);
-            let br = b_st .. (b_st + b_bl.len() as u16);
+            // (computed in u32 since a block read from an object file may end past xFFFF)
+            let ar = u32::from(a_st) .. (u32::from(a_st) + a_bl.len() as u32);
+            let br = u32::from(b_st) .. (u32::from(b_st) + b_bl.len() as u32);
             ranges_overlap(ar, br)
         }) {
             return Err(AsmErr::new(AsmErrKind::OverlappingBlocks, 0..0));
